@@ -377,3 +377,224 @@ func racePlan(quick, thorough int) func(string) Plan {
 		return Plan{Cases: n, Workers: 2, Race: true, MaxProcs: 8, Timeout: 40 * time.Minute, HangIsViol: true}
 	}
 }
+
+// ---------------------------------------------------------------------------------------------
+// C03: an index created while writers commit must equal its predicate once they are done
+
+func indexBuildRound(w *W, idx int) {
+	caseID := fmt.Sprintf("E3:index-build-beside-writers:round%d", idx)
+	w.Begin(idx, caseID)
+	c := stressCollection(64, false)
+	defer c.Close()
+	hook := &stressHook{delayPct: 20, seed: w.Seed + int64(idx)}
+	hook.install(c)
+	defer hook.remove()
+	const rows = 34000
+	c.Query(func(txn *column.Txn) error {
+		for i := 0; i < rows; i++ {
+			txn.Insert(func(r column.Row) error { r.SetInt64("a", int64(i%7)-3); r.SetString("s", "x"); return nil })
+		}
+		return nil
+	})
+	var left int32 = 6
+	per := scale(w, 600, 2000)
+	var commitsDuringBuild int64
+	var building int32
+	var fns []func()
+	for wi := 0; wi < 6; wi++ {
+		wi := wi
+		fns = append(fns, func() {
+			defer atomic.AddInt32(&left, -1)
+			rng := rngFor(w.Seed, 60, idx, wi)
+			for n := 0; n < per; n++ {
+				c.Query(func(txn *column.Txn) error {
+					for j := 0; j < 6; j++ {
+						off := uint32(rng.Intn(rows))
+						txn.QueryAt(off, func(r column.Row) error {
+							switch rng.Intn(4) {
+							case 0:
+								r.MergeInt64("a", int64(rng.Intn(7)-3)) // moves the value across the threshold by merge
+							case 1:
+								r.SetString("s", []string{"x", "yy", ""}[rng.Intn(3)])
+							default:
+								r.SetInt64("a", int64(rng.Intn(9)-4))
+							}
+							return nil
+						})
+					}
+					if n%50 == 0 {
+						txn.Insert(func(r column.Row) error { r.SetInt64("a", -1); return nil }) // grows into new words of the index
+					}
+					return nil
+				})
+				if atomic.LoadInt32(&building) > 0 {
+					atomic.AddInt64(&commitsDuringBuild, 1)
+				}
+			}
+		})
+	}
+	built := 0
+	fns = append(fns, func() {
+		for i := 0; i < 8 && atomic.LoadInt32(&left) > 0; i++ {
+			time.Sleep(time.Duration(1+i) * time.Millisecond)
+			atomic.StoreInt32(&building, 1)
+			c.CreateIndex(fmt.Sprintf("neg%d", i), "a", func(r column.Reader) bool { return r.Int() < 0 })
+			c.CreateIndex(fmt.Sprintf("long%d", i), "s", func(r column.Reader) bool { return len(r.String()) > 1 })
+			atomic.StoreInt32(&building, 0)
+			built++
+		}
+	})
+	parallel(fns...)
+	// quiescent: every index equals its predicate over the current values
+	bad := ""
+	checked := 0
+	c.Query(func(txn *column.Txn) error {
+		a, s := txn.Int64("a"), txn.String("s")
+		for i := 0; i < built && bad == ""; i++ {
+			neg, long := fmt.Sprintf("neg%d", i), fmt.Sprintf("long%d", i)
+			nb, lb := txn.Bool(neg), txn.Bool(long)
+			txn.Range(func(off uint32) {
+				checked++
+				av, aok := a.Get()
+				sv, sok := s.Get()
+				if got, want := nb.Get(), aok && av < 0; got != want && bad == "" {
+					bad = fmt.Sprintf("index %s (a < 0) created while writers were committing: row %d holds a=(%d,%v) but the index says %v", neg, off, av, aok, got)
+				}
+				if got, want := lb.Get(), sok && len(sv) > 1; got != want && bad == "" {
+					bad = fmt.Sprintf("index %s (len(s) > 1) created while writers were committing: row %d holds s=(%q,%v) but the index says %v", long, off, sv, sok, got)
+				}
+			})
+		}
+		return nil
+	})
+	w.Stat("stress_indexes_built_beside_writers", int64(2*built))
+	w.Stat("stress_commits_while_an_index_was_being_built", commitsDuringBuild)
+	w.Stat("stress_index_bits_checked", int64(checked))
+	w.Stat("stress_rounds", 1)
+	w.Eval(hashOf("ixbuild", idx, built, commitsDuringBuild), built > 0)
+	if bad != "" {
+		w.Violate(idx, caseID, "[index] "+bad, "", map[string]any{"idx": idx, "race": true, "engine": "E3"})
+	}
+	if idx == 0 {
+		w.Sample(map[string]any{"round": idx, "writers": 6, "txns_per_writer": per, "indexes_built": 2 * built, "commits_during_builds": commitsDuringBuild, "bits_checked": checked})
+	}
+}
+
+// ---------------------------------------------------------------------------------------------
+// C12: workers on disjoint key sets share one key table; every result must follow a per-worker map
+
+func keyMapRound(w *W, idx int) {
+	caseID := fmt.Sprintf("E3:key-map:round%d", idx)
+	w.Begin(idx, caseID)
+	c := stressCollection(64, true)
+	defer c.Close()
+	hook := &stressHook{delayPct: 10, seed: w.Seed + int64(idx)}
+	hook.install(c)
+	defer hook.remove()
+	const workers = 12
+	per := scale(w, 1500, 5000)
+	var ops int64
+	var first atomic.Value
+	var fns []func()
+	for wi := 0; wi < workers; wi++ {
+		wi := wi
+		fns = append(fns, func() {
+			rng := rngFor(w.Seed, 61, idx, wi)
+			mine := map[string]int64{} // key -> value last committed
+			fail := func(msg string) {
+				if first.Load() == nil {
+					first.Store(msg)
+				}
+			}
+			for n := 0; n < per && first.Load() == nil; n++ {
+				key := fmt.Sprintf("w%d-%d", wi, rng.Intn(24))
+				_, has := mine[key]
+				val := int64(wi)<<32 | int64(n)
+				atomic.AddInt64(&ops, 1)
+				switch rng.Intn(6) {
+				case 0:
+					err := c.InsertKey(key, func(r column.Row) error { r.SetInt64("a", val); return nil })
+					if (err != nil) != has {
+						fail(fmt.Sprintf("InsertKey(%q) returned %v, key present in this worker's map: %v", key, err, has))
+					}
+					if err == nil {
+						mine[key] = val
+					}
+				case 1:
+					err := c.DeleteKey(key)
+					if (err == nil) != has {
+						fail(fmt.Sprintf("DeleteKey(%q) returned %v, key present: %v", key, err, has))
+					}
+					delete(mine, key)
+				case 2:
+					var got int64
+					var gk string
+					err := c.QueryKey(key, func(r column.Row) error { got, _ = r.Int64("a"); gk, _ = r.Key(); return nil })
+					if (err == nil) != has {
+						fail(fmt.Sprintf("QueryKey(%q) returned %v, key present: %v", key, err, has))
+					} else if err == nil && (got != mine[key] || gk != key) {
+						fail(fmt.Sprintf("QueryKey(%q) reached a row with key %q and value %d, expected value %d", key, gk, got, mine[key]))
+					}
+				case 3:
+					if has { // re-key to another absent key of this worker
+						nk := fmt.Sprintf("w%d-%d", wi, 24+rng.Intn(24))
+						if _, taken := mine[nk]; !taken {
+							c.QueryKey(key, func(r column.Row) error { r.SetKey(nk); return nil })
+							mine[nk] = mine[key]
+							delete(mine, key)
+						}
+					}
+				default:
+					err := c.UpsertKey(key, func(r column.Row) error { r.SetInt64("a", val); return nil })
+					if err != nil {
+						fail(fmt.Sprintf("UpsertKey(%q) failed: %v", key, err))
+					}
+					mine[key] = val
+				}
+			}
+			// final: exactly this worker's keys resolve
+			for key, val := range mine {
+				var got int64
+				if err := c.QueryKey(key, func(r column.Row) error { got, _ = r.Int64("a"); return nil }); err != nil || got != val {
+					fail(fmt.Sprintf("at the end QueryKey(%q) = (%d, %v), expected %d", key, got, err, val))
+				}
+			}
+			for i := 0; i < 48; i++ {
+				key := fmt.Sprintf("w%d-%d", wi, i)
+				if _, has := mine[key]; !has {
+					if err := c.QueryKey(key, func(r column.Row) error { return nil }); err == nil {
+						fail(fmt.Sprintf("at the end QueryKey(%q) resolves although the key was deleted or re-keyed", key))
+					}
+				}
+			}
+		})
+	}
+	parallel(fns...)
+	// one live row per key
+	seen := map[string]uint32{}
+	dup := ""
+	c.Query(func(txn *column.Txn) error {
+		return txn.Range(func(off uint32) {
+			txn.QueryAt(off, func(r column.Row) error {
+				if k, ok := r.Key(); ok {
+					if prev, d := seen[k]; d && dup == "" {
+						dup = fmt.Sprintf("rows %d and %d both hold key %q", prev, off, k)
+					}
+					seen[k] = off
+				}
+				return nil
+			})
+		})
+	})
+	w.Stat("stress_key_operations", ops)
+	w.Stat("stress_rounds", 1)
+	w.Eval(hashOf("keymap", idx, ops), ops > 100)
+	if msg := first.Load(); msg != nil {
+		w.Violate(idx, caseID, "[keys] "+msg.(string), "", map[string]any{"idx": idx, "race": true, "engine": "E3"})
+	} else if dup != "" {
+		w.Violate(idx, caseID, "[keys] "+dup, "", map[string]any{"idx": idx, "race": true, "engine": "E3"})
+	}
+	if idx == 0 {
+		w.Sample(map[string]any{"round": idx, "workers": workers, "ops_per_worker": per, "key_operations": ops, "live_keys_at_end": len(seen)})
+	}
+}
